@@ -5,7 +5,7 @@ rule = ("for every indicator except RSI: a base stream of positive prices / vali
         "sampled larger) in slot 0 and the same stream with every price multiplied by c in slot 1: c = 2^k for k in {-40,-1,1,40} (quick) / all "
         "k in -40..40 (thorough; 2^-70, 2^-40 and 2^40 always) compared within 1e-12 relative (bit-for-bit expected), c in {3, 0.1, 1e-5, 12345.678} within 1e-9; multipliers {0.5, 2, 25}; price-valued "
         "outputs must scale by c, dimensionless ones stay; slot 2 gets the stream shifted by d (of the order of the level, and 2^20..2^30 levels; SD/BB variances under the 2^30 shift at 1e-12*t*level*shifted level): SMA/EMA/WMA/MIN/MAX and "
-        "band levels shift by d, SD/MAD/TR/ATR/MACD/FAST stay; plus one long run per indicator (4300 steps for the running-sum ones, 1100 for the others) with c = 1/4 and d = 64; slot 3 runs Minimum on the negated stream against Maximum. Comparisons are made "
+        "band levels shift by d, SD/MAD/TR/ATR/MACD/FAST stay (FAST within 100*16u*shifted level/window range when that is < 1, shift 2^30 levels always included); plus one long run per indicator (4300 steps for the running-sum ones, 1100 for the others) with c = 1/4 and d = 64; slot 3 runs Minimum on the negated stream against Maximum. Comparisons are made "
         "where the outputs are finite and well-conditioned. Non-trivial: distinct (case, factor) longer than the period")
 assumptions = ["well-conditioning of ratio outputs is approximated by skipping steps whose outputs are non-finite or whose reference window is flat"]
 
@@ -43,7 +43,7 @@ def gen_cases(ctx):
             for fi, f in enumerate(factors):
                 # shifts: of the order of the price level, and (last factor) 2^20 or 2^30 times it, where a shift-invariant
                 # statistic must still be unchanged within the rounding of its (now large) inputs
-                d = (r.choice([1.0, 100.0, 0.5]) if fi < len(factors) - 1 else (2.0 ** 30 if ind in ("SD", "BB") else r.choice([2.0 ** 20, 2.0 ** 30]))) * (max(b if not bars else max(b[:4]) for b in base))
+                d = (r.choice([1.0, 100.0, 0.5]) if fi < len(factors) - 1 else (2.0 ** 30 if ind in ("SD", "BB") or (ind in ("FAST", "SLOW") and gi != 1) else r.choice([2.0 ** 20, 2.0 ** 30]))) * (max(b if not bars else max(b[:4]) for b in base))
                 ops = [new_op(s_, ind, pr) for s_ in range(3)]
                 for v in base:
                     ops += [mk(0, v, 1.0, 0.0), mk(1, v, f, 0.0), mk(2, v, 1.0, d)]
@@ -174,8 +174,21 @@ def check_impl(ctx, cases):
                     expc = va
                 else:
                     expc = None
-                if ind == "FAST" and any(abs(x - y) > 1e-6 for x, y in zip(vc, va)):
-                    expc = None if abs(va[0]) > 1e6 else va
+                if ind == "FAST":
+                    # FastStochastic under a shift: (x - lo) / (hi - lo) of the shifted prices; the shifted prices carry a rounding of
+                    # u * L' each, so the output is determined within 100 * (a few u * L') / (hi - lo): compared at that tolerance
+                    # whenever it is below 1 (well-conditioned); flat windows are C08's
+                    p_ = c.meta["params"][0]
+                    w = base_bars[max(0, step + 1 - p_):step + 1]
+                    hi_ = max(o_[2] if o_[0] == "n" else o_[3] for o_ in w)
+                    lo_ = min(o_[2] if o_[0] == "n" else o_[4] for o_ in w)
+                    expc = None
+                    if hi_ > lo_:
+                        tolf = 1e-9 + 100.0 * 16.0 * 2.3e-16 * lvl2 / (hi_ - lo_)
+                        if tolf < 1.0 and abs(vc[0] - va[0]) > tolf:
+                            out.append(Violation("FAST%s: adding %r to every price gives %s at step %d; expected %s within %.3g (window range %r at level %r)"
+                                                 % (c.meta["params"][:1], d, vc, step + 1, va, tolf, hi_ - lo_, lvl2), case=c))
+                            break
                 # a constant shift of 2^30 price levels: every move of the shifted stream is still of the order of the ORIGINAL level l0,
                 # so an update that works on differences (Welford) errs by about u * l0 * L' per step in the variance, while one that
                 # squares the inputs errs by u * L'^2 — 2^30 times more. There the variances are compared at 1e-12 * t * l0 * L'
